@@ -2,3 +2,4 @@
 import SmVerif.Model.DriverMh
 import SmVerif.Model.DriverOwn
 import SmVerif.Model.DriverNg
+import SmVerif.Model.DriverLca
